@@ -362,7 +362,11 @@ func (d *TCPDialer) tryDial(
 	defer cancelCtx()
 	conn, err := dialer.DialContext(ctx, network, addr)
 	if err != nil {
-		if ctx.Err() == context.DeadlineExceeded {
+		// net.Dialer arms the socket deadline from the same context. When that
+		// timer fires first, err is an i/o timeout while ctx.Err() is still nil.
+		var ne net.Error
+		if ctx.Err() == context.DeadlineExceeded ||
+			(errors.As(err, &ne) && ne.Timeout() && time.Until(deadline) <= 0) {
 			return nil, wrapDialWithUpstream(ErrDialTimeout, addr)
 		}
 		return nil, wrapDialWithUpstream(err, addr)
